@@ -1,1 +1,171 @@
-// harness for rs/anda_db_btree/src/btree.rs (mounted by #[cfg(kani)] hook)
+// @module btree::verif_kani
+// Kani harnesses for rs/anda_db_btree/src/btree.rs — property C03: the match predicate that `And`
+// evaluation uses to intersect (BTreeIndex::range_key_matches_query) follows the set-algebra reading
+// of the query tree. Decided compositionally (DESIGN.md C03): every leaf kind for all u64 keys,
+// negation, and the empty / singleton / pair cases of conjunction and disjunction over children with
+// free truth values (`Eq(c)` matches iff key == c); structural induction over the (structurally
+// recursive) function gives every tree.
+use super::*;
+type Ix = BTreeIndex<u64, u64>;
+
+macro_rules! leaf {
+    ($name:ident, $q:expr, $sem:expr, $c1:expr, $c2:expr) => {
+        #[kani::proof]
+        #[kani::unwind(4)]
+        fn $name() {
+            let (k, a, b): (u64, u64, u64) = (kani::any(), kani::any(), kani::any());
+            let mk: fn(u64, u64) -> RangeQuery<u64> = $q;
+            let sem: fn(u64, u64, u64) -> bool = $sem;
+            let q = mk(a, b);
+            let got = Ix::range_key_matches_query(&k, &q);
+            assert!(got == sem(k, a, b), "leaf predicate equals its set reading for every key");
+            let c1: fn(bool, u64, u64, u64) -> bool = $c1;
+            let c2: fn(bool, u64, u64, u64) -> bool = $c2;
+            kani::cover!(c1(got, k, a, b), "witness 1");
+            kani::cover!(c2(got, k, a, b), "witness 2");
+            std::mem::forget(q);
+        }
+    };
+}
+
+// @check id=C03 tier=quick cap=300 role=leaf_predicates harness=c03_leaf_eq,c03_leaf_gt,c03_leaf_ge,c03_leaf_lt,c03_leaf_le,c03_leaf_between,c03_leaf_include
+// @fns BTreeIndex::range_key_matches_query
+// @bound one leaf of a concrete kind (Eq/Gt/Ge/Lt/Le/Between/Include[a,b]); key and both operands full-width symbolic u64 (Between incl. inverted, Include incl. duplicates)
+leaf!(c03_leaf_eq, |a, _| RangeQuery::Eq(a), |k, a, _| k == a, |g, _, _, _| g, |g, _, _, _| !g);
+leaf!(c03_leaf_gt, |a, _| RangeQuery::Gt(a), |k, a, _| k > a, |g, _, _, _| g, |g, k, a, _| !g && k == a);
+leaf!(c03_leaf_ge, |a, _| RangeQuery::Ge(a), |k, a, _| k >= a, |g, k, a, _| g && k == a, |g, _, _, _| !g);
+leaf!(c03_leaf_lt, |a, _| RangeQuery::Lt(a), |k, a, _| k < a, |g, _, _, _| g, |g, k, a, _| !g && k == a);
+leaf!(c03_leaf_le, |a, _| RangeQuery::Le(a), |k, a, _| k <= a, |g, k, a, _| g && k == a, |g, _, _, _| !g);
+leaf!(c03_leaf_between, |a, b| RangeQuery::Between(a, b), |k, a, b| a <= k && k <= b, |g, k, _, b| g && k == b, |g, k, a, b| !g && a > b && b <= k && k <= a);
+leaf!(c03_leaf_include, |a, b| RangeQuery::Include(vec![a, b]), |k, a, b| k == a || k == b, |g, _, a, b| g && a == b, |g, _, _, _| !g);
+
+// @check id=C03 tier=quick cap=300 role=include_empty
+// @fns BTreeIndex::range_key_matches_query
+// @bound Include([]) for every key
+#[kani::proof]
+#[kani::unwind(3)]
+fn c03_include_empty_matches_nothing() {
+    let k: u64 = kani::any();
+    let q: RangeQuery<u64> = RangeQuery::Include(vec![]);
+    assert!(!Ix::range_key_matches_query(&k, &q), "Include([]) matches nothing");
+    kani::cover!(k == 0, "zero key");
+    kani::cover!(k == u64::MAX, "max key");
+    std::mem::forget(q);
+}
+
+fn kids(c: &[u64], n: usize) -> Vec<Box<RangeQuery<u64>>> {
+    let mut v: Vec<Box<RangeQuery<u64>>> = Vec::with_capacity(2);
+    let mut i = 0;
+    while i < n {
+        v.push(Box::new(RangeQuery::Eq(c[i])));
+        i += 1;
+    }
+    v
+}
+
+// Node kinds and arities are CONCRETE per harness: with a symbolic kind CBMC unfolds every recursive
+// arm on reinterpreted payload bytes (measured: a symbolic choice among And/Or/Not over <= 1 child
+// did not finish in 600 s; the concrete shapes below take seconds).
+// Placement of the root matters to CBMC's points-to analysis (measured, both directions):
+//   * a root And/Or on the *stack* does not terminate (And[Ge c]: > 60 s), boxed it takes 0.5 s;
+//   * a Not node on the *heap* (boxed root Not, or Not nested under another node) does not terminate
+//     (> 120 s), a root Not on the stack takes 1 s.
+// So And/Or-rooted shapes box their root, Not-rooted shapes keep it on the stack, and shapes with a
+// nested Not (Not Not q, And[Not x, Not y]) are out of reach — the Not arm is decided at the root and
+// the induction argument (DESIGN.md C03) carries it inward.
+macro_rules! shape {
+    ($name:ident, $unwind:expr, boxed, |$k:ident, $c:ident| $build:expr, $want:expr, $depth:expr) => {
+        #[kani::proof]
+        #[kani::unwind($unwind)]
+        fn $name() {
+            let $k: u64 = kani::any();
+            let $c: [u64; 2] = kani::any();
+            let q: Box<RangeQuery<u64>> = Box::new($build);
+            let got = Ix::range_key_matches_query(&$k, &q);
+            let want: bool = $want;
+            assert!(got == want, "the query tree matches exactly the keys its set-algebra reading denotes");
+            assert!(q.depth() == $depth, "depth() equals the tree's depth");
+            kani::cover!(got, "a matching key");
+            kani::cover!(!got, "a non-matching key");
+            std::mem::forget(q);
+        }
+    };
+    ($name:ident, $unwind:expr, stack, |$k:ident, $c:ident| $build:expr, $want:expr, $depth:expr) => {
+        #[kani::proof]
+        #[kani::unwind($unwind)]
+        fn $name() {
+            let $k: u64 = kani::any();
+            let $c: [u64; 2] = kani::any();
+            let q: RangeQuery<u64> = $build;
+            let got = Ix::range_key_matches_query(&$k, &q);
+            let want: bool = $want;
+            assert!(got == want, "the query tree matches exactly the keys its set-algebra reading denotes");
+            assert!(q.depth() == $depth, "depth() equals the tree's depth");
+            kani::cover!(got, "a matching key");
+            kani::cover!(!got, "a non-matching key");
+            std::mem::forget(q);
+        }
+    };
+}
+macro_rules! shape_const {
+    ($name:ident, $unwind:expr, $build:expr, $want:expr, $depth:expr) => {
+        #[kani::proof]
+        #[kani::unwind($unwind)]
+        fn $name() {
+            let k: u64 = kani::any();
+            let q: Box<RangeQuery<u64>> = Box::new($build);
+            let got = Ix::range_key_matches_query(&k, &q);
+            assert!(got == $want, "an empty conjunction / disjunction matches nothing");
+            assert!(q.depth() == $depth, "depth() equals the tree's depth");
+            kani::cover!(k == 0, "zero key");
+            kani::cover!(k == u64::MAX, "max key");
+            std::mem::forget(q);
+        }
+    };
+}
+fn eq(c: u64) -> Box<RangeQuery<u64>> {
+    Box::new(RangeQuery::Eq(c))
+}
+
+// @check id=C03 tier=quick cap=600 role=combinators harness=c03_not_child,c03_and_one_child,c03_or_one_child,c03_and_two_children,c03_or_two_children
+// @fns BTreeIndex::range_key_matches_query, RangeQuery::depth
+// @bound one concrete combinator shape per harness over children Eq(c_i) with symbolic c_i (a child that matches iff key == c_i, i.e. a free truth value); key full-width symbolic
+shape!(c03_not_child, 4, stack, |k, c| RangeQuery::Not(eq(c[0])), c[0] != k, 2);
+shape!(c03_and_one_child, 4, boxed, |k, c| RangeQuery::And(vec![eq(c[0])]), c[0] == k, 2);
+shape!(c03_or_one_child, 4, boxed, |k, c| RangeQuery::Or(vec![eq(c[0])]), c[0] == k, 2);
+shape!(c03_and_two_children, 5, boxed, |k, c| RangeQuery::And(vec![eq(c[0]), eq(c[1])]), c[0] == k && c[1] == k, 2);
+shape!(c03_or_two_children, 5, boxed, |k, c| RangeQuery::Or(vec![eq(c[0]), eq(c[1])]), c[0] == k || c[1] == k, 2);
+
+// @check id=C03 tier=quick cap=600 role=combinators_empty harness=c03_and_empty,c03_or_empty
+// @fns BTreeIndex::range_key_matches_query
+// @bound And([]) and Or([]) for every key
+shape_const!(c03_and_empty, 4, RangeQuery::And(vec![]), false, 1);
+shape_const!(c03_or_empty, 4, RangeQuery::Or(vec![]), false, 1);
+
+// logically equivalent filters agree (fixed shapes): all four read "a <= k <= b" (or its complement)
+// @check id=C03 tier=quick cap=900 role=equivalences harness=c03_between_as_and,c03_de_morgan_lhs,c03_and_under_not,c03_not_between
+// @fns BTreeIndex::range_key_matches_query
+// @bound And[Ge a, Le b], Not(Or[Lt a, Gt b]) and Between(a,b) all equal a <= k <= b (inverted ranges included); Not(And[Ge a, Le b]) and Not(Between(a,b)) equal its complement; all operands full-width symbolic
+shape!(c03_between_as_and, 5, boxed, |k, c| RangeQuery::And(vec![Box::new(RangeQuery::Ge(c[0])), Box::new(RangeQuery::Le(c[1]))]), c[0] <= k && k <= c[1], 2);
+shape!(c03_de_morgan_lhs, 5, stack, |k, c| RangeQuery::Not(Box::new(RangeQuery::Or(vec![Box::new(RangeQuery::Lt(c[0])), Box::new(RangeQuery::Gt(c[1]))]))), c[0] <= k && k <= c[1], 3);
+shape!(c03_and_under_not, 5, stack, |k, c| RangeQuery::Not(Box::new(RangeQuery::And(vec![Box::new(RangeQuery::Ge(c[0])), Box::new(RangeQuery::Le(c[1]))]))), !(c[0] <= k && k <= c[1]), 3);
+shape!(c03_not_between, 5, stack, |k, c| RangeQuery::Not(Box::new(RangeQuery::Between(c[0], c[1]))), !(c[0] <= k && k <= c[1]), 2);
+
+// nested Not (out of reach in the probes; kept in the thorough tier so a future engine that decides it is noticed)
+// @check id=C03 tier=thorough cap=600 role=nested_not
+// @fns BTreeIndex::range_key_matches_query
+// @bound Not(Not(Between(a,b))) == Between(a,b)
+shape!(c03_not_not, 5, stack, |k, c| RangeQuery::Not(Box::new(RangeQuery::Not(Box::new(RangeQuery::Between(c[0], c[1]))))), c[0] <= k && k <= c[1], 3);
+
+// @check id=C03 tier=thorough cap=300 expect=fail role=witness
+// @fns BTreeIndex::range_key_matches_query
+// @bound vacuity twin: must come back FAILED
+#[kani::proof]
+#[kani::unwind(4)]
+fn c03_witness_must_fail() {
+    let (k, a): (u64, u64) = (kani::any(), kani::any());
+    let q = RangeQuery::Not(Box::new(RangeQuery::Eq(a)));
+    let got = Ix::range_key_matches_query(&k, &q);
+    std::mem::forget(q);
+    assert!(got && !got, "reachability witness");
+}
